@@ -9,7 +9,9 @@
 (*   Every observed result class must be allowed by the relation, and all variants must have     *)
 (*   produced identical results (same classes, same checksum of the result bit patterns).        *)
 (* Mode "extreme": every recorded case of the extreme-divisor clause must be a case the spec     *)
-(*   admits and both quotient parts must be the exactly scaled values.                           *)
+(*   admits and both quotient parts must be the correctly scaled values (see QuotientOK), for    *)
+(*   every division form evaluated: complex / complex (vv vc rc), real / complex (sv sk) when    *)
+(*   the dividend is real, complex / real (vs vsc) when the divisor is real.                      *)
 (* Rows that fail are written out as JSON lines ("@BAD@...") and flagged in the state.           *)
 EXTENDS AnnexG, TLC, Json, IOUtils
 
@@ -50,12 +52,22 @@ RowFailures(row, f, x, y) ==
                              : v \in DOMAIN row.r[t] }
                : t \in ts }
 
+(* The quotient must be the exactly scaled value when the divisor's squared modulus is a power of two (then every     *)
+(* algorithm, also a multiplication by a reciprocal, is exact).  Otherwise "correctly scaled ... to within a few        *)
+(* units of rounding" is all the property asks for: within 4 ulp of the exact quotient (a subnormal quotient: the same  *)
+(* or a neighbouring binade).                                                                                            *)
+CE == INSTANCE ComplexExact
+QuotientOK(t, u, exp, got) ==
+    IF CE!IsPow2(u[1] * u[1] + u[2] * u[2]) THEN FpMatches(exp, got)
+    ELSE IF exp.k = "zero" THEN got.k = "zero"
+    ELSE IF exp.e >= EMinN(t) THEN got \in CE!Near(exp, t)
+    ELSE got.k = "num" /\ got.s = exp.s /\ got.e \in (exp.e - 1)..(exp.e + 1)
 ExtFailures(row) ==
     IF ~(ExtremeCase(row.t, row.q, row.u, row.m, row.k) /\ row.n = GMul2(row.q, row.u))
       THEN {[v |-> "-", part |-> 0, got |-> "-", exp |-> "not a case of the clause"]}
     ELSE LET e == ExtremeExpected(row.q, row.m, row.k) IN
          UNION { {[v |-> v, part |-> i, got |-> ToJson(row.r[v][i]), exp |-> ToJson(e[i])] :
-                     i \in {j \in 1..2 : ~FpMatches(e[j], row.r[v][j])}}
+                     i \in {j \in 1..2 : ~QuotientOK(row.t, row.u, e[j], row.r[v][j])}}
                  : v \in DOMAIN row.r }
 
 Report(key, fl) == fl = {} \/ PrintT("@BAD@" \o ToJson([key |-> key, fails |-> fl]))
